@@ -11,6 +11,9 @@ package redisemu
 //@ ghostfield redisDict.scratch bool
 //@ ghost held bool
 //@ ghost mutated bool
+// C02/C04: the integer parsed from the stored string / field by the counter commands
+//@ ghost gParsed int64
+//@ ghost gParsedOK bool
 // C10: the watched-key version (storeKey.id / absence) changed
 //@ ghost bumped bool
 //@ ghost removedKey bool
